@@ -600,8 +600,9 @@ def with_timeout(seconds, fn):
         signal.signal(signal.SIGALRM, old)
 
 
-def run_dpss(mod, a):
-    """run dpss_windows under observation; returns a dict (JSON-able apart from arrays kept under '_')"""
+def run_dpss(mod, a, keep_raw=False):
+    """run dpss_windows under observation; returns a dict (JSON-able apart from arrays kept under '_').
+    keep_raw: also keep the very objects dpss_windows returned (out['_raw']) — the harness otherwise works on copies"""
     N, NW, K = a["N"], a["NW"], a["Kmax"]
     kw = {}
     if a.get("interp_from") is not None:
@@ -625,6 +626,8 @@ def run_dpss(mod, a):
             with np.errstate(all="ignore"):
                 v, lam = with_timeout(20.0, call)
             out = {"t": "ok", "v": np.array(v, dtype="d"), "lam": np.array(lam, dtype="d")}
+            if keep_raw:
+                out["_raw"] = (v, lam)
         except Exception as ex:
             out = {"t": "exc", "cls": type(ex).__name__, "msg": str(ex)[:200]}
     out["calls"] = rec.calls
@@ -1046,6 +1049,105 @@ def gen_sequences(ctx):
     return seqs
 
 
+def scribble(raw):
+    """what a caller is free to do with arrays it was handed: modify them in place (eigenvalue weighting of the tapers,
+    sqrt of the concentrations in place, windowing, bookkeeping on the eigenvalues).  Returns the names actually modified."""
+    v, lam = raw
+    done = []
+    with np.errstate(all="ignore"):
+        try:
+            if isinstance(v, np.ndarray) and isinstance(lam, np.ndarray) and v.ndim == 2 and lam.shape == v.shape[:1]:
+                v *= np.sqrt(np.abs(lam))[:, None]
+            if isinstance(v, np.ndarray):
+                v[..., v.shape[-1] // 2:] *= 0.25          # lopsided window: no longer symmetric / unit-norm / orthogonal
+                v[..., :1] += 0.5
+                done.append("tapers")
+        except (ValueError, TypeError):
+            pass                                           # read-only results cannot be scribbled on: nothing to test
+        try:
+            if isinstance(lam, np.ndarray):
+                np.sqrt(np.abs(lam), out=lam)
+                lam[..., :1] = 2.0
+                done.append("eigenvalues")
+        except (ValueError, TypeError):
+            pass
+    return done
+
+
+def gen_scribble_histories(ctx):
+    """two-call histories: (first call, second call) — the harness modifies the arrays the first call returned IN PLACE and
+    then makes the second call, which is judged like any other call.  kinds: 'same' (equal arguments, direct or interpolated,
+    possibly spelled with other argument types) and 'via' (first the short exact set dpss_windows(M, NW, K), then the set
+    interpolated from M, whose recursion asks for the same short set)."""
+    rng = ctx.rng
+    hs = []
+    Ns = [rng.randint(16, 300) for _ in range(ctx.scale(21, 90))] + [rng.choice([1025, 2048])] + ([] if ctx.quick else [4096, 3001])
+    for i, N in enumerate(Ns):
+        for _ in range(20):
+            M = max(8, rng.choice([N // 2, N // 3, N // 4, N - 1, (2 * N) // 3]))
+            nws = [nw for nw in NWS if admissible(N, nw) and admissible(M, nw)]
+            if nws and M < N:
+                break
+        else:
+            continue
+        nw = rng.choice(nws)
+        K = rng.choice([int(2 * nw), rng.randint(1, int(2 * nw))])
+        kd = rng.choice(KINDS)
+        E = {"fam": "dpss", "N": N, "NW": nw, "Kmax": K}
+        I = dict(E, interp_from=M, interp_kind=kd)
+        S = {"fam": "dpss", "N": M, "NW": nw, "Kmax": K}
+        form = rng.choice([None, None, "keywords", "np-int", "float-Kmax", "int-NW"])
+        second = lambda x: dict(x, argform=form) if form else dict(x)
+        which = i % 3
+        if which == 0:
+            hs.append(("same", dict(E), second(E)))
+        elif which == 1:
+            hs.append(("same", dict(I), second(I)))
+        else:
+            hs.append(("via", dict(S), second(I)))
+    return hs
+
+
+def run_scribble_history(ctx, mod, label, kind, a1, a2, stats, dense_limit, prior):
+    """returns (number of dpss_windows runs, entry for the fresh-interpreter comparison or None); prior: the calls of earlier
+    histories in this process (same solver form) whose results were modified in place — recorded as the history of a1"""
+    o1 = run_dpss(mod, a1, keep_raw=True)
+    for f in validate_dpss(a1, o1, stats, dense_limit=dense_limit):
+        f.replay = {"entry_point": "nitime.utils.dpss_windows", "form": label}
+        ctx.report_fail(f, Case("", dict(a1, form=label, **({"scribbled_before": [dict(x) for x in prior[-10:]]} if prior else {})),
+                                "", False))
+    if o1["t"] != "ok" or not (np.isfinite(o1["v"]).all() and np.isfinite(o1["lam"]).all()):
+        return 1, None                                     # (known zero-pivot breakdown: no arrays to scribble on)
+    d1 = digest(o1)
+    r1 = o1["_raw"]
+    modified = scribble(r1)
+    prior.append(dict(a1))
+    o2 = run_dpss(mod, a2, keep_raw=True)
+    rec = dict(a2, form=label, scribbled_before=[dict(a1)])
+    rp = {"entry_point": "nitime.utils.dpss_windows", "form": label,
+          "history": "the arrays returned by the call(s) under scribbled_before were modified in place by the caller (%s) "
+                     "before this call" % ", ".join(modified)}
+    c2 = Case("", rec, "dpss/after-scribble/%s" % kind, True)
+    ctx.count_case(c2)
+    for f in validate_dpss(a2, o2, stats, dense_limit=dense_limit):
+        f.replay = dict(rp)
+        ctx.report_fail(f, c2)
+    if o2["t"] == "ok":
+        r2 = o2["_raw"]
+        al = [n for n, x, y in (("tapers", r1[0], r2[0]), ("eigenvalues", r1[1], r2[1]), ("tapers/eigenvalues", r1[0], r2[1]),
+                                ("eigenvalues/tapers", r1[1], r2[0]))
+              if isinstance(x, np.ndarray) and isinstance(y, np.ndarray) and np.shares_memory(x, y)]
+        if al:
+            f = Fail("C07/dpss_windows/result-aliased", "the arrays returned by two dpss_windows calls share memory (%s): what a caller "
+                     "does to one result changes the other" % ", ".join(al), al, "no shared memory", dict(rp))
+            ctx.report_fail(f, c2)
+    if kind == "same" and digest(o2) != d1 and not o2.get("zero_pivot"):
+        f = Fail("C07/dpss_windows/history-dependent", "the same dpss_windows call repeated after the caller modified the first result "
+                 "in place does not return the bit-identical result", digest(o2), d1, dict(rp))
+        ctx.report_fail(f, c2)
+    return 2, ((rec, label, digest(o2), rp) if (kind == "via" and not o2.get("zero_pivot")) else None)
+
+
 FRESH_SCRIPT = r"""
 import sys, json, warnings
 warnings.filterwarnings('ignore')
@@ -1264,7 +1366,31 @@ def run(ctx):
                      "the bit-identical result", dg, digest(out),
                      {"entry_point": "nitime.utils.dpss_windows", "form": label, "after_calls_in_this_process": before})
             ctx.report_fail(f, Case("", dict(a, form=label), "", False))
+    # (c) two-call histories with the first result modified in place by the caller in between; the second call is judged
+    #     by every test above, must be bit-identical to the first (equal arguments) / to a fresh interpreter (via interp_from)
+    nscr = 0
+    viaq = []
+    prior = {label: [] for label, _ in impls.modules()}
+    for kind, a1, a2 in gen_scribble_histories(ctx):
+        if _TIMEOUTS["n"] >= 5 or len(ctx.violations) >= 300:
+            break
+        for label, mod in impls.modules():
+            n, ent = run_scribble_history(ctx, mod, label, kind, a1, a2, stats, ctx.scale(520, 1100), prior[label])
+            nval += n
+            nscr += 1
+            if ent:
+                viaq.append(ent)
+    viaq = viaq[:ctx.scale(12, 48)]
+    with concurrent.futures.ThreadPoolExecutor(max_workers=8) as ex:
+        fresh = list(ex.map(lambda h: fresh_digest(h[1], h[0]), viaq))
+    for (rec, label, dg, rp), fd in zip(viaq, fresh):
+        npure += 1
+        if fd != dg:
+            f = Fail("C07/dpss_windows/history-dependent", "dpss_windows returns a different result after the caller modified an earlier "
+                     "result in place than when called alone in a fresh interpreter", dg, fd, dict(rp))
+            ctx.report_fail(f, Case("", rec, "dpss/after-scribble/via", True))
     ctx.extra["call_history_tests"] = {"sibling_sequences": nseq, "calls_per_sequence": 6,
+                                       "scribble_histories(first result modified in place, second call judged)": nscr,
                                        "purity_comparisons(fresh interpreter + end-of-run repeats)": npure}
     tm["sibling sequences + purity"] = round(_t.time() - t0, 1)
     # observation points: every un-failed direct run must show its inverse iterations, every interpolated run its interp1d calls
@@ -1331,8 +1457,17 @@ def replay(ctx, path):
         print(json.dumps(o, indent=1))
     elif fam == "dpss":
         mod = impls.module(a.get("form", ""))
-        out = run_dpss(mod, a)
+        held = []
+        for b in a.get("scribbled_before") or []:         # history: earlier calls whose results the caller modified in place
+            ob = run_dpss(mod, b, keep_raw=True)
+            if ob["t"] == "ok":
+                held.append(ob["_raw"])
+                print("earlier call %s: modified in place: %s" % (json.dumps(b), scribble(ob["_raw"])))
+        out = run_dpss(mod, a, keep_raw=True)
         fails = validate_dpss(a, out, {})
+        if out["t"] == "ok" and any(isinstance(x, np.ndarray) and isinstance(y, np.ndarray) and np.shares_memory(x, y)
+                                    for h in held for x in h for y in out["_raw"]):
+            fails.append(Fail("C07/dpss_windows/result-aliased", "result shares memory with the result of an earlier call", None, None))
         print(json.dumps({"args": {k: a.get(k) for k in ("N", "NW", "Kmax", "interp_from", "interp_kind", "flip", "argform")},
                           "form": a.get("form"), "result": out["t"], "exception": out.get("cls")}, indent=1))
     else:
